@@ -138,7 +138,8 @@ fn run_group(t: &mut Tape, ctx: &mut Ctx, cfg: u64, group: usize) -> CheckResult
                 }
                 d
             } else {
-                gen::write_once_dag(t, super::c16::SIG, nin, nops, nout)
+                let flat = ctx.medium && t.chance(1, 2);
+                gen::write_once_dag_shaped(t, super::c16::SIG, if flat { nin.max(1) } else { nin }, nops, nout, flat)
             };
             let inputs: Vec<u64> = (0..d.s.len()).map(|_| t.small_u64()).collect();
             ctx.set_dump(format!("config {cfg:#x}\nd = {} inputs {:?}", d.pretty(), inputs));
